@@ -111,6 +111,9 @@ impl GenCfg {
 #[derive(Clone, Debug, Default)]
 pub struct Pool {
     pub facts: Vec<Pred>,
+    /// rules written anywhere in the scenario so far: later rules chain on their heads or
+    /// derive the same heads by a shorter route
+    pub rules: Vec<Rule>,
 }
 
 pub struct Gen<'a> {
@@ -246,8 +249,19 @@ impl<'a> Gen<'a> {
 
     /// a body atom: either a generalisation of a fact known to exist, or a random pattern
     fn atom(&mut self, env: &mut VarEnv) -> Pred {
+        let chained = if !self.pool.rules.is_empty() && self.rng.chance(1, 4) {
+            // the head of a rule written elsewhere: derivations that take several iterations
+            let r = self.rng.pick(&self.pool.rules).clone();
+            SIGS.iter()
+                .find(|s| s.name == r.head.name && s.args.len() == r.head.terms.len())
+                .map(|sig| (r.head.name.clone(), sig.args.to_vec(), Some(r.head.terms.clone())))
+        } else {
+            None
+        };
         let (name, args, seed_terms): (String, Vec<Ty>, Option<Vec<Term>>) =
-            if !self.pool.facts.is_empty() && self.rng.chance(2, 3) {
+            if let Some(c) = chained {
+                c
+            } else if !self.pool.facts.is_empty() && self.rng.chance(2, 3) {
                 let f = self.rng.pick(&self.pool.facts).clone();
                 match SIGS.iter().find(|s| s.name == f.name && s.args.len() == f.terms.len()) {
                     Some(sig) => (f.name.clone(), sig.args.to_vec(), Some(f.terms.clone())),
@@ -272,7 +286,10 @@ impl<'a> Gen<'a> {
                     terms.push(Term::Var(env.fresh(*ty)));
                 }
             } else if let Some(seed) = &seed_terms {
-                terms.push(seed[i].clone());
+                match &seed[i] {
+                    Term::Var(_) => terms.push(self.constant(*ty)),
+                    t => terms.push(t.clone()),
+                }
             } else {
                 terms.push(self.constant(*ty));
             }
@@ -533,11 +550,11 @@ impl<'a> Gen<'a> {
                         } else {
                             Expr::val(self.constant(Ty::BigInt))
                         };
-                        Expr::bin(
-                            BinOp::Gt,
-                            Expr::bin(BinOp::Add, l, Expr::val(Term::Int(1))),
-                            Expr::val(Term::Int(0)),
-                        )
+                        // every arithmetic operator at the ends of the integer range
+                        let op = self.rng.pick(&[BinOp::Add, BinOp::Sub, BinOp::Mul, BinOp::Div]).clone();
+                        let r = Expr::val(Term::Int(*self.rng.pick(&[1i64, -1, 0, 2, i64::MIN, i64::MAX])));
+                        let (l, r) = if self.rng.chance(1, 4) { (r, l) } else { (l, r) };
+                        Expr::bin(BinOp::Gt, Expr::bin(op, l, r), Expr::val(Term::Int(0)))
                     }
                     2 => {
                         // strict equality on an untyped value: type error for some bindings
@@ -615,7 +632,63 @@ impl<'a> Gen<'a> {
         (atoms, exprs, scopes, env)
     }
 
+    /// derives the head of a rule written elsewhere directly from base facts: the same fact then
+    /// exists under another origin, and usually some iterations earlier
+    fn shortcut(&mut self, owner_is_authorizer: bool) -> Option<Rule> {
+        let r = self.rng.pick(&self.pool.rules).clone();
+        let sig = SIGS.iter().find(|s| s.name == r.head.name && s.args.len() == r.head.terms.len())?;
+        let mut env = VarEnv { vars: vec![] };
+        let mut renamed: BTreeMap<String, String> = BTreeMap::new();
+        let mut terms = Vec::new();
+        let mut body = Vec::new();
+        for (t, ty) in r.head.terms.iter().zip(sig.args) {
+            match t {
+                Term::Var(v) => {
+                    if let Some(n) = renamed.get(v) {
+                        terms.push(Term::Var(n.clone()));
+                        continue;
+                    }
+                    let n = env.fresh(*ty);
+                    renamed.insert(v.clone(), n.clone());
+                    terms.push(Term::Var(n.clone()));
+                    // an atom that binds it: a predicate with an argument of that type
+                    let candidates: Vec<&Sig> = SIGS.iter().filter(|s| s.args.contains(ty)).collect();
+                    let known: Vec<&Sig> = candidates.iter().copied().filter(|s| self.pool.facts.iter().any(|f| f.name == s.name)).collect();
+                    let s = if !known.is_empty() { *self.rng.pick(&known) } else { *self.rng.pick(&candidates) };
+                    let mut placed = false;
+                    let mut at = Vec::new();
+                    for a in s.args {
+                        if a == ty && !placed {
+                            at.push(Term::Var(n.clone()));
+                            placed = true;
+                        } else {
+                            at.push(Term::Var(env.fresh(*a)));
+                        }
+                    }
+                    body.push(Pred { name: s.name.to_string(), terms: at });
+                }
+                c => terms.push(c.clone()),
+            }
+        }
+        if body.is_empty() {
+            body.push(self.atom(&mut env));
+        }
+        let scopes = self.maybe_scopes(owner_is_authorizer);
+        Some(Rule { head: Pred { name: r.head.name.clone(), terms }, body, exprs: vec![], scopes })
+    }
+
     pub fn rule(&mut self, owner_is_authorizer: bool) -> Rule {
+        let r = self.rule_inner(owner_is_authorizer);
+        self.pool.rules.push(r.clone());
+        r
+    }
+
+    fn rule_inner(&mut self, owner_is_authorizer: bool) -> Rule {
+        if !self.pool.rules.is_empty() && self.rng.chance(1, 5) {
+            if let Some(r) = self.shortcut(owner_is_authorizer) {
+                return r;
+            }
+        }
         let (body, exprs, scopes, env) = self.body(owner_is_authorizer, false);
         // head: a predicate whose arguments can be filled from body variables or constants
         let sig = if self.rng.chance(2, 3) {
@@ -698,8 +771,20 @@ impl<'a> Gen<'a> {
             vec![]
         };
         let facts: Vec<Pred> = (0..nf).map(|_| self.fact()).collect();
-        let rules = (0..nr).map(|_| self.rule(false)).collect();
-        let checks = (0..nc).map(|_| self.check(false)).collect();
+        let mut rules: Vec<Rule> = (0..nr).map(|_| self.rule(false)).collect();
+        let mut checks: Vec<Check> = (0..nc).map(|_| self.check(false)).collect();
+        // the same derivation written again by another party: one fact under several origins,
+        // and a check of this block that depends on its own copy
+        if !self.pool.rules.is_empty() && self.rng.chance(1, 5) {
+            let r = self.rng.pick(&self.pool.rules).clone();
+            if self.rng.chance(2, 3) {
+                checks.push(Check {
+                    kind: CheckKind::One,
+                    queries: vec![Rule { head: query_head(), body: vec![r.head.clone()], exprs: vec![], scopes: vec![] }],
+                });
+            }
+            rules.push(r);
+        }
         let context = if self.rng.chance(1, 5) {
             Some(format!("ctx{}", self.rng.below(3)))
         } else {
